@@ -73,7 +73,7 @@ def jobs(tier, seed):
     rnd = random.Random(seed)
     js = []
     exh = (2, 3) if tier == "quick" else (2, 3, 4)
-    samp = ((4, 16),) if tier == "quick" else ((5, 60),)
+    samp = ((4, 8),) if tier == "quick" else ((5, 60),)
     for name in mc.PARITY:
         for bk in ("difference", "ratio"):
             structs = []
@@ -84,10 +84,12 @@ def jobs(tier, seed):
             for ci in range(0, len(structs), 60):
                 js.append({"id": f"ident-{name}-{bk}-{ci // 60}", "kind": "ident", "moment": name, "bound": bk, "structs": structs[ci:ci + 60]})
         for where in ("oracle", "grid"):
-            structs = []
-            for n in (2, 3):
-                structs += list(mc.datasets(n, 2, 0))
-            structs += mc.sample_datasets(3, 3, 2, 6 if tier == "quick" else 30, rnd, need_ctrl=True)
+            structs = list(mc.datasets(2, 2, 0))
+            if tier == "quick":
+                structs += mc.sample_datasets(3, 2, 0, 8, rnd, need_ctrl=False)
+            else:
+                structs += list(mc.datasets(3, 2, 0))
+            structs += mc.sample_datasets(3, 3, 2, 3 if tier == "quick" else 30, rnd, need_ctrl=True)
             if tier != "quick":
                 structs += mc.sample_datasets(4, 3, 2, 30, rnd)
             for ci in range(0, len(structs), 12):
@@ -101,11 +103,21 @@ def jobs(tier, seed):
             for g in core.rgs(n, 3):
                 js.append({"id": f"bgl-{loss}-n{n}-{''.join(map(str, g))}", "kind": "bgl", "loss": loss, "groups": list(g),
                            "y": [rnd.choice([-0.5, 0.0, 0.25, 0.5, 1.0, 1.5]) for _ in range(n)]})
+    js.sort(key=lambda j: {"bgl": 0, "errobj": 1, "ident": 2}.get(j["kind"], 3))  # cheap identity jobs first, the pairwise order jobs last
     return js
 
 
+LAM_ORDER = ["index"]
+
+
 def _lam(m, prefix="l"):
-    return pd.Series([real(f"{prefix}{j}", 0) for j in range(len(m.index))], index=m.index, dtype=object)
+    """symbolic multipliers, one per index entry; the Series is handed over either in index order or in REVERSED label order
+    (multipliers are matched by label, not by position)"""
+    vals = [real(f"{prefix}{j}", 0) for j in range(len(m.index))]
+    s = pd.Series(vals, index=m.index, dtype=object)
+    if LAM_ORDER[0] == "reversed":
+        s = s.iloc[::-1]
+    return s
 
 
 def _dot(a, b):
@@ -131,6 +143,8 @@ def run_job(job, deadline):
 def _ident(acc, job, si, y, groups, ctrl, deadline):
     import fairlearn.reductions as red
 
+    LAM_ORDER[0] = "reversed" if si % 2 else "index"
+
     n, name, bk = len(y), job["moment"], job["bound"]
     ex = {"y": y, "groups": groups, "ctrl": ctrl}
 
@@ -146,7 +160,7 @@ def _ident(acc, job, si, y, groups, ctrl, deadline):
         w = m.signed_weights(lam)
         g1, g2 = m.gamma(lambda X: h), m.gamma(lambda X: h2)
         b = m.bound()
-        pl = m.project_lambda(lam)
+        pl = m.project_lambda(lam) if len(m.index) else lam
         return m, h, h2, lam, w, g1, g2, b, pl
 
     def on_ok(ctx, out):
@@ -183,6 +197,7 @@ def _reduction(acc, job, si, y, groups, ctrl, deadline):
 
     n, name, where = len(y), job["moment"], job["kind"]
     ex = {"y": y, "groups": groups, "ctrl": ctrl}
+    LAM_ORDER[0] = "index"
     kw = {"sensitive_features": [mc.GROUP_NAMES[g] for g in groups]}
     if ctrl is not None:
         kw["control_features"] = [mc.CTRL_NAMES[c] for c in ctrl]
@@ -289,6 +304,7 @@ def _bgl(acc, job, deadline):
     y, groups = job["y"], job["groups"]
     n = len(y)
     ex = {"y": y, "groups": groups}
+    LAM_ORDER[0] = "reversed" if sum(groups) % 2 else "index"
 
     def run():
         h = [real(f"h{i}", -1, 2) for i in range(n)]
@@ -338,7 +354,7 @@ def replay(cex):
         m = red.BoundedGroupLoss(loss, upper_bound=0.1)
         X = pd.DataFrame({"f": list(range(n))})
         m.load_data(X, y, sensitive_features=[mc.GROUP_NAMES[g] for g in groups])
-        lam = pd.Series([f(f"l{j}") for j in range(len(m.index))], index=m.index)
+        lam = pd.Series([f(f"l{j}") for j in range(len(m.index))], index=m.index).iloc[::-1]
         w = m.signed_weights(lam)
         g = m.gamma(lambda X: pd.Series(h))
         clip = lambda v: min(max(v, 0), 1)
@@ -366,7 +382,7 @@ def replay(cex):
         else:
             m = mc.make_moment(name, "difference", f("eps"))
         mc.load(m, y, groups, ctrl)
-        lam = pd.Series([f(f"l{j}") for j in range(len(m.index))], index=m.index)
+        lam = pd.Series([f(f"l{j}") for j in range(len(m.index))], index=m.index).iloc[::-1]
         if len(m.index):
             w = m.signed_weights(lam)
             g1, g2 = m.gamma(lambda X: h), m.gamma(lambda X: h2)
